@@ -95,10 +95,11 @@ func CheckWord(c WordCase) (v vcase.Verdict) {
 	if !utf8.ValidString(s) {
 		v.Label("non_utf8")
 	}
-	valueOK, keyOK := true, s != ""
+	valueOK, keyOK, listOK := true, s != "", s != ""
 	if c.Form == "bare" {
 		valueOK = refexpr.BareOK(s, true)
 		keyOK = refexpr.BareOK(s, false)
+		listOK = keyOK // in a fixed list "key@(word ...)" a leading '/' is just part of the word
 		if !valueOK && !keyOK {
 			return
 		}
@@ -146,6 +147,14 @@ func CheckWord(c WordCase) (v vcase.Verdict) {
 			v.Failf("filter %q does not match a result whose k is %q", "k:("+w+" OR zzz)", s)
 			return
 		}
+	}
+
+	// --- in a fixed value list of a projection
+	if listOK {
+		res := &benchfmt.Result{Name: benchfmt.Name("N"), Iters: 1, Values: []benchfmt.Value{{Value: 1, Unit: "u"}},
+			Config: []benchfmt.Config{{Key: "k", Value: []byte(s), File: true}}}
+		other := &benchfmt.Result{Name: benchfmt.Name("N"), Iters: 1, Values: []benchfmt.Value{{Value: 1, Unit: "u"}},
+			Config: []benchfmt.Config{{Key: "k", Value: []byte(s + "x"), File: true}}}
 		if s != "" {
 			var pp benchproc.ProjectionParser
 			ff, _ := benchproc.NewFilter("*")
@@ -559,7 +568,21 @@ func editFilter(t *rapid.T, base string, hasRegexp bool) (string, string, bool) 
 			return base[:p+1], "term_without_value", true
 		}
 	case 5:
-		return base + " .config:x", "config_in_filter", true
+		term := rapid.SampledFrom([]string{".config:x", `.config:"a b"`, ".config:/re/", ".config:(a OR b)"}).Draw(t, "cfgterm")
+		switch rapid.IntRange(0, 5).Draw(t, "cfgpos") {
+		case 0:
+			return base + " " + term, "config_in_filter", true
+		case 1:
+			return term + " " + base, "config_in_filter", true
+		case 2:
+			return term + " OR " + base, "config_in_filter", true
+		case 3:
+			return "-(" + term + " " + base + ")", "config_in_filter", true
+		case 4:
+			return "(" + base + ") AND (" + term + " OR a:b) c:d", "config_in_filter", true
+		default:
+			return "-" + term + " " + base, "config_in_filter", true
+		}
 	case 6: // add an unbalanced parenthesis
 		if rapid.Bool().Draw(t, "which") {
 			return "(" + base, "unbalanced_paren", true
